@@ -62,6 +62,10 @@ pub struct Cfg {
 	/// WebSocket ping: (interval, inactive limit) in seconds of the (paused) clock
 	#[serde(default)]
 	pub ping: Option<(u64, u64)>,
+	/// WebSocket ping with a real-time inactivity limit: (ping interval in seconds of the paused clock, inactivity
+	/// limit in milliseconds of the REAL clock - the server measures it with std::time::Instant -, max_failures)
+	#[serde(default)]
+	pub ping_fine: Option<(u64, u64, usize)>,
 	/// build every per-connection service through `TowerServiceBuilder::set_http_middleware` (identity middleware)
 	#[serde(default)]
 	pub via_set_http_middleware: bool,
@@ -69,7 +73,7 @@ pub struct Cfg {
 
 impl Default for Cfg {
 	fn default() -> Self {
-		Cfg { max_request: 10 * 1024 * 1024, max_response: 10 * 1024 * 1024, max_connections: 100, max_subs: 1024, batch: BatchCfg::Unlimited, buffer_capacity: 1024, mode: 0, ping: None, via_set_http_middleware: false }
+		Cfg { max_request: 10 * 1024 * 1024, max_response: 10 * 1024 * 1024, max_connections: 100, max_subs: 1024, batch: BatchCfg::Unlimited, buffer_capacity: 1024, mode: 0, ping: None, ping_fine: None, via_set_http_middleware: false }
 	}
 }
 
@@ -524,6 +528,9 @@ pub fn server_config(cfg: &Cfg, string_ids: bool) -> ServerConfig {
 		});
 	if let Some((interval, inactive)) = cfg.ping {
 		b = b.enable_ws_ping(jsonrpsee_server::PingConfig::new().ping_interval(Duration::from_secs(interval)).inactive_limit(Duration::from_secs(inactive)).max_failures(1));
+	}
+	if let Some((interval, inactive_ms, max_failures)) = cfg.ping_fine {
+		b = b.enable_ws_ping(jsonrpsee_server::PingConfig::new().ping_interval(Duration::from_secs(interval)).inactive_limit(Duration::from_millis(inactive_ms)).max_failures(max_failures));
 	}
 	match cfg.mode {
 		1 => b = b.http_only(),
